@@ -103,7 +103,17 @@ def rule_rooteqonly(ctx):
     # rotation: (idx + root) % 12
     g = ctx.program.func("chord.rotate_bitmap_to_root", R)
     sg = ctx.S.get(g.qual)
-    rot = any(x.op == "bin" and x.a[0] == "%" and tm.is_const(x.a[2], 12) and x.a[1].op == "bin" and x.a[1].a[0] == "+" and any(z.op == "param" and z.a[0] == "chord_root" for z in (x.a[1].a[1], x.a[1].a[2])) for st in sg.sites for x in (tm.walk(st.d["val"]) if st.kind == "mutate" and "val" in st.d and isinstance(st.d["val"], tm.T) else []))
+    def _rot(x):
+        return x.op == "bin" and x.a[0] == "%" and tm.is_const(x.a[2], 12) and x.a[1].op == "bin" and x.a[1].a[0] == "+" and any(z.op == "param" and z.a[0] == "chord_root" for z in (x.a[1].a[1], x.a[1].a[2])) and any(y.op == "call" and call_name(y) == "np.nonzero" for y in tm.walk(x))
+
+    rot = False
+    for st in sg.sites:
+        if st.kind != "mutate":
+            continue
+        for fld in ("val", "key"):
+            v = st.d.get(fld)
+            if isinstance(v, tm.T) and any(_rot(x) for x in tm.walk(v)):
+                rot = True
     yield ob(R, g, "chord.rotate_bitmap_to_root:mod12", rot, "active semitones are moved to (index + root) % 12")
     # merging neighbours uses the encoding, not the label text (shared with C12)
     for o in c12.rule_segmerge(ctx):
